@@ -746,4 +746,11 @@ def run_c20(seed, tier, nproc):
     tot['stats'] = dict(tot['stats'])
     tot['exhaustive'] = (tier == 'thorough')
     tot['codes'] = len(codes)
+    # whole-interpreter soft-fork compatibility (model/SoftFork.v, theorem C20_soft_fork_simulation)
+    import forkstream
+    fk = forkstream.run_fork(seed + 20, 6000 if tier != 'thorough' else 200000, nproc)
+    tot['n'] += fk['n']; tot['distinct'] += fk['distinct']; tot['oracle_calls'] += fk['oracle_calls']
+    tot['disagreements'] += fk['disagreements']; tot['violations'] += fk['violations']
+    tot['samples'] += fk['samples'][:1]
+    tot['fork_stream'] = dict(stats=fk['stats'], outcomes=fk['outcomes'], n=fk['n'])
     return tot
